@@ -487,3 +487,76 @@ def report_failures(run, results, label):
         else:
             run.fail(R.Failure(base, r.ob.kind, f"{r.ob.name} not discharged (sat); model {dict(list(r.model.items())[:8])}",
                                {"model": r.model, "replay_harness": w, "smt2": r.ob.smt2()}, False))
+
+
+# ------------------------------------------------------------------------------------------------------------------
+# template-level obligation (all programs): the error returns of the codec templates are emitted for every type their
+# case applies to -- their Jinja guards are exactly the type-case guards listed here.  This is what covers template
+# branches that depend on a type PARAMETER (e.g. an array capacity threshold) which no finite corpus can enumerate.
+# ------------------------------------------------------------------------------------------------------------------
+EXPECTED_ERROR_GUARDS = {
+    ("serialization.j2", "serialize", "NUNAVUT_ERROR_INVALID_ARGUMENT"): set(),
+    ("serialization.j2", "_serialize_impl", "NUNAVUT_ERROR_SERIALIZATION_BUFFER_TOO_SMALL"): set(),
+    ("serialization.j2", "_serialize_impl", "NUNAVUT_ERROR_REPRESENTATION_BAD_UNION_TAG"): {("t.inner_type is StructureType", False), ("t.inner_type is UnionType", True)},
+    ("serialization.j2", "_serialize_variable_length_array", "NUNAVUT_ERROR_REPRESENTATION_BAD_ARRAY_LENGTH"): set(),
+    ("deserialization.j2", "deserialize", "NUNAVUT_ERROR_INVALID_ARGUMENT"): set(),
+    ("deserialization.j2", "_deserialize_impl", "NUNAVUT_ERROR_REPRESENTATION_BAD_UNION_TAG"): {("t.inner_type is StructureType", False), ("t.inner_type is UnionType", True)},
+    ("deserialization.j2", "_deserialize_variable_length_array", "NUNAVUT_ERROR_REPRESENTATION_BAD_ARRAY_LENGTH"): set(),
+    ("deserialization.j2", "_deserialize_composite", "NUNAVUT_ERROR_REPRESENTATION_BAD_DELIMITER_HEADER"): {("t is DelimitedType", True)},
+}
+
+
+def template_error_guards(run, templates: typing.Tuple[str, ...]):
+    import re as _re
+    from vk import efx, report as R
+    from nunavut.jinja.jinja2 import nodes as N
+    seen = set()
+    for tname in templates:
+        path = SRC / "nunavut/lang/c/templates" / tname
+        tree = efx.parse_template(SRC, path)
+        run.add_function(f"nunavut/lang/c/templates/{tname} (error returns)")
+        for mac in tree.find_all(N.Macro):
+            out: list = []
+
+            def walk(n, guards):
+                if isinstance(n, N.If):
+                    t = efx.jinja_text(n.test)
+                    for b in n.body:
+                        walk(b, guards + ((t, True),))
+                    neg = guards + ((t, False),)
+                    for el in (n.elif_ or []):
+                        walk(el, neg)
+                    for b in (n.else_ or []):
+                        walk(b, neg)
+                    return
+                if isinstance(n, N.For):
+                    for b in n.body:
+                        walk(b, guards + (("for " + efx.jinja_text(n.iter) + (" if " + efx.jinja_text(n.test) if n.test is not None else ""), True),) if n.test is not None else guards)
+                    return
+                if isinstance(n, N.Output):
+                    for e in n.nodes:
+                        if isinstance(e, N.TemplateData):
+                            for m in _re.finditer(r"return -(NUNAVUT_ERROR_\w+)", e.data):
+                                out.append((m.group(1), guards))
+                    return
+                for ch in n.iter_child_nodes():
+                    walk(ch, guards)
+
+            for b in mac.body:
+                walk(b, ())
+            for err, g in out:
+                key = (tname, mac.name, err)
+                seen.add(key)
+                name = f"{tname}:{mac.name}#{err}-is-returned-for-every-type-of-its-case"
+                want = EXPECTED_ERROR_GUARDS.get(key)
+                ok = want is not None and set(g) == want
+                run.add_check(name, ok, "E-FX guards (Jinja AST)", 0, f"guards {sorted(g)}")
+                if not ok:
+                    extra = sorted(set(g) - (want or set()))
+                    run.fail(R.Failure(name, "post", f"{tname}: `return -{err}` in macro {mac.name} is emitted only under {extra or sorted(g)}: types outside that condition lose the check "
+                                       "(a template branch on a type parameter; no corpus type need reach it)", {"guards": sorted(g), "expected": sorted(want or [])}, False))
+    for key in EXPECTED_ERROR_GUARDS:
+        if key[0] in templates and key not in seen:
+            name = f"{key[0]}:{key[1]}#{key[2]}-is-returned-for-every-type-of-its-case"
+            run.add_check(name, False, "E-FX guards (Jinja AST)", 0, "no such return statement in the template")
+            run.fail(R.Failure(name, "post", f"{key[0]}: macro {key[1]} no longer returns -{key[2]}", {}, False))
